@@ -89,6 +89,20 @@ CHECKS = {
          'proved. Trusted: the translator and its numpy/builtin classification table, the container encoding; a '
          'caller-supplied callable is assumed not to return retained state.',
          'DESIGN.md section 6 (C19)'),
+ 'C16': ('Coq proof (whole convex_hull: vertices are input points, start/closure at the lexicographic minimum, '
+         'containment w.r.t. every edge, strict left turns incl. chain junctions, merging post-condition, totality; '
+         'RefCatalog 1-/2-source boxes) + exact correspondence of convex_hull outputs in Coq + catalog-level '
+         'predicates on spherical polygons',
+         'Machine-checked theorems about an executable model of the WHOLE convex_hull (dedup + lexicographic sort, '
+         'both monotone chains, concatenation, small-input exits, merging after fixes F10/F14, closing vertex), '
+         'including a literal index-list transcription proved equal to the structural model, with refutation '
+         'witnesses for the pre-fix code (F6 direction, F10, F14). Each run compares convex_hull outputs on '
+         'integer/dyadic point sets EXACTLY with the model in Coq and evaluates containment / box extent / overlap '
+         'symmetry and bounds on image, group and reference catalogs across the sky.',
+         'Spherical geometry (polygons, union, intersection, areas; the arcsec->radian half of F6, the F11 rotation '
+         'order) is external: measured only. Known findings K2 and K3 (spherical_geometry multi_union; summed '
+         'member-wise overlaps). Trusted: Coq kernel + vm_compute, python harness.',
+         'DESIGN.md section 6 (C16)'),
  'C17': ('Coq proof (Gauss-Jordan inverse correct for every order n; null vector => Singular) + per-run '
          'correspondence of the exact model with linalg.inv evaluated inside Coq',
          'Machine-checked theorems about an exact-rational model of the Gauss-Jordan algorithm (left and right '
